@@ -121,14 +121,56 @@ pub open spec fn oplog_flush_infos_ok(infos: Seq<StoreInfo>, h: Header, bits: [b
     }
 }
 
+/// c is the smallest index whose block is not held
+pub open spec fn is_first_missing(b: &DynamicBitfield, c: int) -> bool {
+    0 <= c && (forall|i: int| 0 <= i < c ==> #[trigger] b.bit(i)) && !b.bit(c)
+}
+/*@ fn src/core.rs fn update_contiguous_length
+tags: C08 C01 C02
+requires:
+    bitfield.wf(),
+    bitfield_update.start + bitfield_update.length <= 0xffff_ffff_ffff,
+    // the hint was exact for the bitfield before `bitfield_update` was applied to it
+    forall|i: int| 0 <= i < old(header).hints.contiguous_length ==>
+        (bitfield_update.start <= i < bitfield_update.start + bitfield_update.length) || #[trigger] bitfield.bit(i),
+    (bitfield_update.start <= old(header).hints.contiguous_length < bitfield_update.start + bitfield_update.length)
+        || !bitfield.bit(old(header).hints.contiguous_length as int),
+    // and the update has been applied
+    forall|i: int| bitfield_update.start <= i < bitfield_update.start + bitfield_update.length ==> #[trigger] bitfield.bit(i) == !bitfield_update.drop
+ensures:
+    is_first_missing(bitfield, final(header).hints.contiguous_length as int),
+    final(header).key == old(header).key, final(header).manifest == old(header).manifest, final(header).key_pair == old(header).key_pair,
+    final(header).user_data == old(header).user_data, final(header).tree == old(header).tree, final(header).hints.reorgs == old(header).hints.reorgs
+loop 1:
+    invariant
+        bitfield.wf(), end <= c,
+        forall|i: int| 0 <= i < c ==> #[trigger] bitfield.bit(i)
+    decreases (bitfield.biggest_page_index + 1) * 32768 - c
+before `c += 1;`:
+    proof {
+        // a set bit lives on an existing page, and pages are bounded by biggest_page_index
+        let p = (c as int / 32768) as u64;
+        assert(bitfield.pages@.contains_key(p));
+        assert(p <= bitfield.biggest_page_index);
+    }
+@*/
+
 impl Hypercore {
     pub open spec fn wf(&self) -> bool {
         &&& self.bitfield.wf()
         &&& !self.storage.failed@
         &&& header_small(self.header)
-        &&& self.oplog.entries_byte_length <= 0xffff_ffff_ff && self.oplog.entries_length <= 0xffff_ffff_ff
+        &&& self.oplog.entries_byte_length <= 0xffff_ffff_ff && self.oplog.entries_length <= 0xffff_ffff_ffff_ff
         &&& self.tree.truncate_to <= 0xffff_ffff_ffff
+        &&& self.tree.length <= 0xff_ffff_ffff && self.tree.byte_length <= 0xff_ffff_ffff_ffff
         &&& self.skip_flush_count <= 3
+        // C08: the stored hint is exact, and nothing at or beyond the length is marked as held
+        &&& is_first_missing(&self.bitfield, self.header.hints.contiguous_length as int)
+        &&& forall|k: int| k >= self.tree.length ==> !(#[trigger] self.bitfield.bit(k))
+    }
+    /// between two public calls: the oplog is short (a longer one is flushed at the end of the call that made it so)
+    pub open spec fn quiescent(&self) -> bool {
+        self.oplog.entries_byte_length < 65536 && self.oplog.entries_length <= 0xffff_ffff_ffff && (self.skip_flush_count == 0 || self.oplog.entries_length + self.skip_flush_count <= 3)
     }
     /// the observable in-memory state (everything except storage, oplog bookkeeping and pending-write queues)
     pub open spec fn same_view(&self, o: &Hypercore) -> bool {
@@ -181,12 +223,136 @@ impl Hypercore {
         (r is Err) == final(self).storage.failed@,
         r is Ok ==> final(self).wf() && final(self).oplog.entries_byte_length == 0 && final(self).oplog.entries_length == 0,
         r is Ok && !clear_traces ==> Oplog::cur_hbit(final(self).oplog.header_bits) != Oplog::cur_hbit(old(self).oplog.header_bits),
+        final(self).storage.journal@.len() >= old(self).storage.journal@.len(),
         // C02: bitfield pages, then tree (truncate first, then nodes), then the header slot(s), then the truncate of the entries
         r is Ok ==> (exists|ib: Seq<StoreInfo>, it_: Seq<StoreInfo>, io: Seq<StoreInfo>|
             #![trigger ops_of(ib), ops_of(it_), ops_of(io)]
             final(self).storage.journal@ == old(self).storage.journal@ + ops_of(ib) + ops_of(it_) + ops_of(io)
             && bitfield_infos_ok(ib) && tree_infos_ok(it_)
             && oplog_flush_infos_ok(io, old(self).header, old(self).oplog.header_bits, clear_traces))
+    @*/
+}
+
+pub proof fn lemma_concat_mono(batch: Seq<&[u8]>, a: int, b: int)
+    requires 0 <= a <= b
+    ensures concat_blocks(batch, a).len() <= concat_blocks(batch, b).len()
+    decreases b - a
+{ if a < b { lemma_concat_mono(batch, a, b - 1); } }
+pub open spec fn ev_append(start: u64, n: u64) -> Seq<Ev> { seq![Ev::DataUpgrade, Ev::Have { start: start, length: n, drop: false }] }
+
+impl Hypercore {
+    /*@ fn src/core.rs Hypercore::make_read_only
+    tags: C12 C02 C10
+    result: r
+    requires:
+        old(self).wf()
+    ensures:
+        // already read-only: nothing happens at all
+        old(self).key_pair.secret is None ==> r is Ok && r->Ok_0 == false && *final(self) == *old(self),
+        // writable: the secret is gone from memory BEFORE anything is written, both header slots are rewritten
+        // (zero padded to 4096 bytes) with a header that carries no secret, and the entries are truncated away
+        old(self).key_pair.secret is Some ==> final(self).key_pair.secret is None && final(self).header.key_pair.secret is None
+            && final(self).key_pair.public == old(self).key_pair.public,
+        old(self).key_pair.secret is Some ==> (r is Err) == final(self).storage.failed@,
+        old(self).key_pair.secret is Some && r is Ok ==> r->Ok_0 == true && final(self).wf()
+            && (exists|ib: Seq<StoreInfo>, it_: Seq<StoreInfo>, io: Seq<StoreInfo>|
+                #![trigger ops_of(ib), ops_of(it_), ops_of(io)]
+                final(self).storage.journal@ == old(self).storage.journal@ + ops_of(ib) + ops_of(it_) + ops_of(io)
+                && bitfield_infos_ok(ib) && tree_infos_ok(it_)
+                && oplog_flush_infos_ok(io, final(self).header, old(self).oplog.header_bits, true))
+    @*/
+}
+
+impl Hypercore {
+    /*@ fn src/core.rs Hypercore::append_batch
+    tags: C01 C02 C08 C10 C12 C13
+    result: r
+    requires:
+        old(self).wf(), old(self).quiescent(),
+        batch@.len() <= 0x1_0000,
+        concat_blocks(batch@, batch@.len() as int).len() <= 0xff_ffff_ffff,
+        old(self).tree.length + batch@.len() <= 0xff_ffff_ffff,
+        old(self).tree.byte_length + concat_blocks(batch@, batch@.len() as int).len() <= 0xff_ffff_ffff_ffff
+    ensures:
+        // C12: without a secret key nothing at all happens
+        old(self).key_pair.secret is None ==> r is Err && r->Err_0 is NotWritable && *final(self) == *old(self),
+        // an empty batch is a no-op that reports the current size
+        old(self).key_pair.secret is Some && batch@.len() == 0 ==> r is Ok && *final(self) == *old(self)
+            && r->Ok_0.length == old(self).tree.length && r->Ok_0.byte_length == old(self).tree.byte_length,
+        // C10: a storage failure is the only way to fail, and it always surfaces
+        old(self).key_pair.secret is Some ==> (r is Err) == final(self).storage.failed@,
+        old(self).key_pair.secret is Some && batch@.len() > 0 && r is Ok ==> final(self).wf() && final(self).quiescent()
+            && r->Ok_0.length == old(self).tree.length + batch@.len()
+            && r->Ok_0.byte_length == old(self).tree.byte_length + concat_blocks(batch@, batch@.len() as int).len()
+            && final(self).tree.length == r->Ok_0.length && final(self).tree.byte_length == r->Ok_0.byte_length
+            && final(self).tree.fork == old(self).tree.fork && final(self).key_pair == old(self).key_pair
+            // C01/C08: exactly the appended indices become held
+            && (forall|k: int| #![trigger final(self).bitfield.bit(k)] final(self).bitfield.bit(k)
+                    == (old(self).tree.length <= k < old(self).tree.length + batch@.len() || old(self).bitfield.bit(k)))
+            // C13: upgrade, then have for exactly the appended range
+            && final(self).events.trace@ == old(self).events.trace@ + ev_append(old(self).tree.length, batch@.len() as u64),
+        // C02: data first, then the oplog entry (the commit point), then - at most - a flush
+        old(self).key_pair.secret is Some && batch@.len() > 0 && r is Ok ==>
+            final(self).storage.journal@.len() >= old(self).storage.journal@.len() + 2
+            && final(self).storage.journal@.subrange(0, old(self).storage.journal@.len() as int) == old(self).storage.journal@
+            && final(self).storage.journal@[old(self).storage.journal@.len() as int]
+                == (StoreOp::Write { store: Store::Data, off: old(self).tree.byte_length as int, data: concat_blocks(batch@, batch@.len() as int) })
+            && (final(self).storage.journal@[old(self).storage.journal@.len() as int + 1] matches StoreOp::Write { store, off, data }
+                && store == Store::Oplog && off == 8192 + old(self).oplog.entries_byte_length),
+        // refused / failed calls announce nothing
+        r is Err ==> final(self).events.trace@ == old(self).events.trace@,
+        // commit point: until the oplog entry write has been issued, memory is untouched
+        r is Err && final(self).storage.journal@.len() <= old(self).storage.journal@.len() + 1 ==> final(self).same_view(old(self))
+    sub `append_batch<A: AsRef<\[u8\]>, B: AsRef<\[A\]>>\(` => `append_batch(`
+    sub `batch: B,` => `batch: &[&[u8]],`
+    sub `batch\.as_ref\(\)\.iter\(\)` => `it: batch.iter()`
+    sub `batch\.as_ref\(\)` => `batch`
+    sub `data\.as_ref\(\)` => `data`
+    loop 1:
+        invariant
+            batch@.len() <= 0x1_0000,
+            concat_blocks(batch@, batch@.len() as int).len() <= 0xff_ffff_ffff,
+            old(self).tree.length + batch@.len() <= 0xff_ffff_ffff,
+            old(self).tree.byte_length + concat_blocks(batch@, batch@.len() as int).len() <= 0xff_ffff_ffff_ffff,
+            batch_length == concat_blocks(batch@, it.index@ as int).len(),
+            changeset.length == old(self).tree.length + it.index@,
+            changeset.byte_length == old(self).tree.byte_length + batch_length,
+            changeset.batch_length == it.index@,
+            changeset.ancestors == old(self).tree.length, changeset.fork == old(self).tree.fork,
+            changeset.original_tree_length == old(self).tree.length, changeset.original_tree_fork == old(self).tree.fork,
+            it.index@ > 0 ==> changeset.upgraded,
+            changeset.nodes@.len() <= 64 * it.index@,
+            forall|i: int| 0 <= i < changeset.nodes@.len() ==> (#[trigger] changeset.nodes@[i]).hash@.len() == 32
+    before `batch_length += changeset.append(data);`:
+        proof {
+            lemma_concat_mono(batch@, it.index@ + 1, batch@.len() as int);
+        }
+    after `self.header = outcome.header;`:
+        let ghost s_after_entry = *self;
+    before `// Return the new value`:
+        proof {
+            if batch@.len() > 0 {
+                assert(self.wf());
+                assert(self.quiescent());
+                assert(self.tree.length == old(self).tree.length + batch@.len());
+                assert(forall|k: int| #![trigger self.bitfield.bit(k)] self.bitfield.bit(k)
+                    == (old(self).tree.length <= k < old(self).tree.length + batch@.len() || old(self).bitfield.bit(k)));
+                assert(self.events.trace@ =~= old(self).events.trace@ + ev_append(old(self).tree.length, batch@.len() as u64));
+                let j0 = old(self).storage.journal@;
+                assert(self.storage.journal@.len() >= j0.len() + 2);
+                assert(self.storage.journal@.subrange(0, j0.len() as int) =~= j0);
+            }
+        }
+    before `// Now ready to flush`:
+        let ghost s_committed = *self;
+        assert(self.bitfield.wf());
+        assert(!self.storage.failed@);
+        assert(header_small(self.header));
+        assert(self.oplog.entries_byte_length <= 0xffff_ffff_ff);
+        assert(self.tree.length <= 0xff_ffff_ffff && self.tree.byte_length <= 0xff_ffff_ffff_ffff);
+        assert(is_first_missing(&self.bitfield, self.header.hints.contiguous_length as int));
+        assert(forall|k: int| k >= self.tree.length ==> !(#[trigger] self.bitfield.bit(k)));
+        assert(self.tree.truncate_to <= 0xffff_ffff_ffff);
     @*/
 }
 
